@@ -164,6 +164,17 @@ def extra_programs(n: grammar.Names) -> list[dict[str, Any]]:
         "{% assign q = g if h || default: a, allow_false: made %}{{ q }}{% echo g if false || map: x => x.k | join: unbound %}",
         "{% liquid\n assign q = g | times: 2\n if q\n  echo q | plus: h.a\n endif\n for i in arr\n  cycle i, q\n endfor\n%}",
     ]
+    # every path spelled as a word over segment spellings with white space around dots and inside brackets (the
+    # reported span must be the whole path as written), at an output, a filter argument and a tag expression
+    import itertools
+
+    segs = [".a", "['a']", "[0]", "[g]", ". a", " .a", ".\na", "[ 'a' ]", " [0]"]
+    for n_ in (1, 2, 3):
+        for w in itertools.product(segs, repeat=n_):
+            if n_ == 3 and not any(" " in x or "\n" in x for x in w):
+                continue
+            pth = "h" + "".join(w)
+            progs.append("{{ " + pth + " }}{{ g | append: " + pth + " }}{% if " + pth + " %}y{% endif %}")
     return [{"source": s, "templates": t, "own_data": False} for s in progs]
 
 
